@@ -287,6 +287,23 @@ def _class_source(k, c, pc, base_names, ns, rec, name=None):
             body.append(f"    {i.get('srcName', i['name'])}: {ann}")
         else:
             body.append(f"    {i.get('srcName', i['name'])} = {rhs}")
+    # ---- harness-only: ANOTHER attrs class is created while this class body is still executing (a nested class
+    # statement, or a call to a helper that builds one), between two of the body's statements
+    il = pc.get("interleave") if c["kind"] != "plain" else None
+    if il and body:
+        pos = il["pos"] % (len(body) + 1)
+        if il["how"] == "nested":
+            ins = ["    @attr.s", f"    class _Nested_{uid}:", "        zz = attr.ib()", "        zy = attr.ib(default=0)"]
+        elif il["how"] == "nested_define":
+            ins = ["    @attrs.define", f"    class _Nested_{uid}:", "        zz = attrs.field(default=0)"]
+        else:
+            ins = [f"    _interleaved({il['how']!r})"]
+        body[pos:pos] = ins
+    # ---- harness-only: the class brings its own initializer (class-level init=False, or a hand-written __init__
+    # that define / auto_detect=True respects): attrs writes __attrs_init__ instead, everything else is the same
+    init_mode = pc.get("init_mode") if c["kind"] != "plain" else None
+    if init_mode == "own":
+        body.append("    def __init__(self, *a, **k):\n        self.__attrs_init__(*a, **k)")
     if not body:
         body.append("    pass")
     bases = ", ".join(base_names)
@@ -330,6 +347,10 @@ def _class_source(k, c, pc, base_names, ns, rec, name=None):
         dk["these"] = these_var
     if c["kwOnly"]:
         dk["kw_only"] = "True"
+    if init_mode == "false":
+        dk["init"] = "False"
+    elif init_mode == "own" and c["kind"] == "attrS":
+        dk["auto_detect"] = "True"
     tr = make_transformer(c["tr"], rec, ns, pc)
     if tr is not None:
         ns[f"_tr_{uid}"] = tr
@@ -451,6 +472,17 @@ def make_pre_introspect(ns):
     return pre
 
 
+def _interleaved(how):
+    """build a throw-away attrs class (called from inside another class body)"""
+    if how == "call_define":
+        return attrs.define(type("Helper", (), {"h1": attrs.field(default=0), "h2": attrs.field(default=0)}))
+    if how == "call_make_class":
+        return attr.make_class("Helper", ["h1", "h2"])
+    if how == "call_auto":
+        return attr.s(auto_attribs=True)(type("Helper", (), {"__annotations__": {"h1": int}}))
+    return attr.s(type("Helper", (), {"h1": attr.ib(), "h2": attr.ib(default=0)}))
+
+
 def new_namespace():
     mod = types.ModuleType("c07_synth")
     ns = mod.__dict__
@@ -459,6 +491,7 @@ def new_namespace():
     for k in range(8):
         ns[f"T{k}"] = marker(k)
     ns["_pre_introspect"] = make_pre_introspect(ns)
+    ns["_interleaved"] = _interleaved
     return mod, ns
 
 
@@ -482,6 +515,10 @@ def build(case, leaf_override=None, leaf_pc=None):
     bases = cfg["bases"]
     mod, ns = new_namespace()
     sys.modules[mod.__name__] = mod
+    # process history, made the same for every build (so a replay in a fresh process sees what the run saw): some
+    # attr.ib()s have been created before -- the global creation counter is well past anything one body creates
+    for _ in range(8):
+        attr.ib()
     made = []
     rec = {}
     err = None
